@@ -1,13 +1,15 @@
 (* C09 - Iterative queries terminate with bounded parallelism.
    Statements only; every theorem is closed by [exact]/a short script from lemmas proved in
-   Proofs/Query.v and Proofs/QueryPool.v and followed by Print Assumptions.  The model
-   (Model/Query.v) transcribes src/query_pool.rs, src/query_pool/peers/closest.rs and
-   src/query_pool/peers/predicate.rs.  None of the theorems has a hypothesis besides the run it
-   talks about: every configuration (parallelism, num_results and timeouts are arbitrary N, zero
-   included), target, candidate list, kind of query and event list is covered.
+   Proofs/Query.v, Proofs/QueryPool.v and Proofs/QueryGap.v and followed by Print Assumptions.
+   The model (Model/Query.v) transcribes src/query_pool.rs, src/query_pool/peers/closest.rs and
+   src/query_pool/peers/predicate.rs.  Apart from the deadline / drain theorems (which say when the
+   polls happen) and C09_result_exactly_once (at most 2^64 adds), none of the theorems has a
+   hypothesis besides the run it talks about: every configuration (parallelism, num_results and
+   timeouts are arbitrary N, zero included), target, candidate list, kind of query and event list
+   is covered.
    See DESIGN.md section 6 (C09 / C10). *)
 From Coq Require Import List NArith Bool.
-From Discv5V Require Import Model.Query Proofs.Query Proofs.QueryPool.
+From Discv5V Require Import Model.Query Proofs.Query Proofs.QueryPool Proofs.QueryGap.
 Import ListNotations.
 Local Open Scope N_scope.
 
@@ -178,3 +180,166 @@ Proof.
   split; [vm_compute; discriminate|]. eexists. eexists. vm_compute. reflexivity.
 Qed.
 Print Assumptions C09_deadline_hypotheses_satisfiable.
+
+(* ---- "hands its result to the caller EXACTLY once" ----
+   C09_result_once is "at most once".  "At least once" - a query that left the pool was handed out -
+   holds as long as next_id has not wrapped, i.e. for the first 2^64 adds: then the ids returned by
+   add are 0, 1, ..., adds-1, each once (a); a query that is in the pool was added once and has not
+   been handed out; a query that is not in the pool was handed out exactly as often as it was added
+   (b), that is exactly once if it was added at all (c: C09_result_exactly_once_c). *)
+Theorem C09_result_exactly_once :
+  forall timeout evs p os,
+    prun evs (pool_new timeout) = Some (p, os) ->
+    N.of_nat (length (filter is_add_event evs)) <= USIZE ->
+    forall i,
+      count_out (is_added i) os = (if i <? N.of_nat (length (filter is_add_event evs)) then 1%nat else 0%nat) /\
+      (In i (ids (queries p)) -> count_out (is_added i) os = 1%nat /\ count_out (is_terminal i) os = 0%nat) /\
+      (~ In i (ids (queries p)) -> count_out (is_terminal i) os = count_out (is_added i) os).
+Proof. exact result_exactly_once. Qed.
+Print Assumptions C09_result_exactly_once.
+
+Theorem C09_added_at_most_once :
+  forall timeout evs p os i,
+    prun evs (pool_new timeout) = Some (p, os) ->
+    N.of_nat (length (filter is_add_event evs)) <= USIZE ->
+    (count_out (is_added i) os <= 1)%nat.
+Proof. exact added_at_most_once. Qed.
+Print Assumptions C09_added_at_most_once.
+
+Theorem C09_result_exactly_once_c :
+  forall timeout evs p os i,
+    prun evs (pool_new timeout) = Some (p, os) ->
+    N.of_nat (length (filter is_add_event evs)) <= USIZE ->
+    (0 < count_out (is_added i) os)%nat ->
+    (In i (ids (queries p)) -> count_out (is_terminal i) os = 0%nat) /\
+    (~ In i (ids (queries p)) -> count_out (is_terminal i) os = 1%nat).
+Proof. exact result_exactly_once_c. Qed.
+Print Assumptions C09_result_exactly_once_c.
+
+(* Non-vacuity: two queries added, one timed out and handed out once, the other still in the pool. *)
+Example C09_result_exactly_once_instance :
+  exists timeout evs p os,
+    prun evs (pool_new timeout) = Some (p, os) /\
+    N.of_nat (length (filter is_add_event evs)) <= USIZE /\
+    ids (queries p) = [1] /\
+    count_out (is_added 0) os = 1%nat /\ count_out (is_terminal 0) os = 1%nat /\
+    count_out (is_added 1) os = 1%nat /\ count_out (is_terminal 1) os = 0%nat.
+Proof.
+  exists 100, [PAdd KFindNode {| parallelism := 1; num_results := 2; peer_timeout := 1000 |} 0 [(5, true)];
+               PPoll 7 [0];
+               PAdd KFindNode {| parallelism := 1; num_results := 2; peer_timeout := 1000 |} 9 [(6, true)];
+               PPoll 200 [0]].
+  eexists. eexists. split; [vm_compute; reflexivity|]. split; [vm_compute; discriminate|].
+  repeat split; vm_compute; reflexivity.
+Qed.
+Print Assumptions C09_result_exactly_once_instance.
+
+(* Without the bound on the number of adds "at least once" is false of the code: next_id wraps
+   (wrapping_add) and the 2^64+1-th add returns id 0 again; if query 0 is still in the pool,
+   HashMap::insert replaces it and its result is never handed out.  The 2^64-event witness is not
+   built; the mechanism is this fact about one add in an arbitrary pool state (reachable or not): an
+   add whose id is that of a live query replaces that query, and an add at 2^64-1 wraps next_id. *)
+Theorem C09_add_replaces_live_query :
+  forall p x k c t known,
+    q_find (next_id p) (queries p) = Some x ->
+    let (p', id) := pool_add p k c t known in
+    id = next_id p /\
+    ids (queries p') = ids (queries p) /\
+    q_find id (queries p') = Some {| qiter := with_config k c t known; started := None |} /\
+    (forall j, j <> id -> q_find j (queries p') = q_find j (queries p)).
+Proof. exact pool_add_replaces_live. Qed.
+Print Assumptions C09_add_replaces_live_query.
+
+Theorem C09_next_id_wraps :
+  forall p k c t known, next_id p = USIZE - 1 -> next_id (fst (pool_add p k c t known)) = 0.
+Proof. exact pool_add_wraps. Qed.
+Print Assumptions C09_next_id_wraps.
+
+(* ---- "every lookup terminates ... or is cut off by the query timeout": un-started queries ----
+   C09_pool_drains needs a query that has been started; add creates it with started = None.  One
+   poll: if poll has nothing to report (Idle / Waiting(None)) then it has visited every query, and
+   every query left in the pool has a start time - the one it had before, else the time of this
+   poll; any other outcome strictly decreases the weight of the pool. *)
+Theorem C09_poll_starts_or_progresses :
+  forall timeout evs p os0 now order p' out,
+    prun evs (pool_new timeout) = Some (p, os0) ->
+    pool_poll p now order = Some (p', out) ->
+    match out with
+    | PIdle | PWaiting None =>
+      forall i x', q_find i (queries p') = Some x' ->
+        exists x, q_find i (queries p) = Some x /\
+                  started x' = Some (match started x with Some s => s | None => now end)
+    | PWaiting (Some _) | PFinished _ _ | PTimeout _ _ => mu (queries p') < mu (queries p)
+    end.
+Proof.
+  intros timeout evs p os0 now order p' out R.
+  apply poll_starts_or_progresses. apply (prun_inv _ _ _ _ (pool_new_inv timeout) R).
+Qed.
+Print Assumptions C09_poll_starts_or_progresses.
+
+(* Hence every query leaves the pool, started or not, when the pool is polled by a clock that does
+   not run backwards: T bounds the start times recorded so far and the times of a first list of
+   polls, longer than the weight of the pool (they start every query that is not removed); a second
+   list of polls, again longer than the weight, comes at least the query timeout after T.  After
+   them no query of the pool is left (each was handed out: C09_result_exactly_once).  The iteration
+   orders are arbitrary. *)
+Theorem C09_pool_drains_unstarted :
+  forall timeout evs p os0 l1 l2 p' os T i,
+    prun evs (pool_new timeout) = Some (p, os0) ->
+    (forall j x s, q_find j (queries p) = Some x -> started x = Some s -> s <= T) ->
+    (forall no, In no l1 -> fst no <= T) ->
+    (forall no, In no l2 -> T + query_timeout p <= fst no) ->
+    prun (polls (l1 ++ l2)) p = Some (p', os) ->
+    mu (queries p) < N.of_nat (length l1) ->
+    mu (queries p) < N.of_nat (length l2) ->
+    q_find i (queries p') = None.
+Proof.
+  intros timeout evs p os0 l1 l2 p' os T i R. apply pool_drains_unstarted.
+  apply (prun_inv _ _ _ _ (pool_new_inv timeout) R).
+Qed.
+Print Assumptions C09_pool_drains_unstarted.
+
+Theorem C09_pool_empties :
+  forall timeout evs p os0 l1 l2 p' os T,
+    prun evs (pool_new timeout) = Some (p, os0) ->
+    (forall j x s, q_find j (queries p) = Some x -> started x = Some s -> s <= T) ->
+    (forall no, In no l1 -> fst no <= T) ->
+    (forall no, In no l2 -> T + query_timeout p <= fst no) ->
+    prun (polls (l1 ++ l2)) p = Some (p', os) ->
+    mu (queries p) < N.of_nat (length l1) ->
+    mu (queries p) < N.of_nat (length l2) ->
+    queries p' = [].
+Proof.
+  intros timeout evs p os0 l1 l2 p' os T R. apply pool_empties_unstarted.
+  apply (prun_inv _ _ _ _ (pool_new_inv timeout) R).
+Qed.
+Print Assumptions C09_pool_empties.
+
+(* Non-vacuity: a pool with a query started at time 3 and a query that was never polled
+   (started = None); four polls at time 7 and four polls at time 200 >= 7 + 100 drain it. *)
+Example C09_drain_unstarted_instance :
+  exists timeout evs p os0 l1 l2 T i x,
+    prun evs (pool_new timeout) = Some (p, os0) /\
+    q_find i (queries p) = Some x /\ started x = None /\
+    (forall j x s, q_find j (queries p) = Some x -> started x = Some s -> s <= T) /\
+    (forall no, In no l1 -> fst no <= T) /\
+    (forall no, In no l2 -> T + query_timeout p <= fst no) /\
+    mu (queries p) < N.of_nat (length l1) /\ mu (queries p) < N.of_nat (length l2) /\
+    exists p' os, prun (polls (l1 ++ l2)) p = Some (p', os) /\ queries p' = [].
+Proof.
+  exists 100, [PAdd KFindNode {| parallelism := 1; num_results := 2; peer_timeout := 1000 |} 0 [(5, true)];
+               PPoll 3 [0];
+               PAdd KFindNode {| parallelism := 1; num_results := 2; peer_timeout := 1000 |} 9 [(6, true)]].
+  eexists. eexists. exists [(7, []); (7, [1]); (7, []); (7, [])], [(200, []); (200, []); (200, [0]); (200, [])], 7, 1.
+  eexists.
+  split; [vm_compute; reflexivity|]. split; [vm_compute; reflexivity|]. split; [reflexivity|].
+  split.
+  { intros j x s F St. cbn [queries q_find] in F.
+    destruct (j =? 0); [inversion F; subst; cbn in St; inversion St; subst; vm_compute; discriminate|].
+    destruct (j =? 1); [inversion F; subst; discriminate|discriminate]. }
+  split; [intros no [<-|[<-|[<-|[<-|[]]]]]; vm_compute; discriminate|].
+  split; [intros no [<-|[<-|[<-|[<-|[]]]]]; vm_compute; discriminate|].
+  split; [vm_compute; reflexivity|]. split; [vm_compute; reflexivity|].
+  eexists. eexists. split; vm_compute; reflexivity.
+Qed.
+Print Assumptions C09_drain_unstarted_instance.
